@@ -185,7 +185,8 @@ fn main() -> Result<()> {
                 Some((&FifoEntry::WrapAroundMarker(marker), timestamps)) => {
                     (Some(marker), timestamps)
                 }
-                Some((_, timestamps)) => (None, timestamps),
+                // No marker at the end: every entry is a timestamp.
+                Some(_) => (None, chunk),
                 _ => unreachable!(),
             };
             for &tsc in timestamps {
